@@ -233,6 +233,10 @@ def gen(i, R, tier, model_only_patterns=False):
     ops = []
     for p in rng.sample(files, rng.randint(2, 6)):
         ops.append({"op": "write", "path": p, "content": _content(rng, p)})
+    if swarm["weird_names"] and rng.random() < 0.4:
+        # two names in one folder that differ only in a byte that is not valid UTF-8
+        for p in ("caf\udce9.py", "caf\udce8.py"):
+            ops.append({"op": "write", "path": p, "content": _content(rng, p)})
     if rng.random() < 0.5:
         ops.append({"op": "scan", "nonce": G.nonce(rng)})
     for _ in range(rng.randint(4, 25)):
